@@ -494,15 +494,13 @@ class CrcUF:
 def sx_fstr(*parts):
     from .strs import SymStr, fstr_build
 
-    sym = False
+    # fast path: only builtin scalars / strings -> CPython formatting
+    plain = True
     for p in parts:
-        if isinstance(p, tuple) and isinstance(p[0], (SymInt, SymBool, SymBytes, SymStr)):
-            sym = True
+        if isinstance(p, tuple) and not isinstance(p[0], (builtins.str, builtins.int, builtins.float, builtins.bytes, type(None))):
+            plain = False
             break
-        if isinstance(p, tuple) and type(p[0]).__name__ in ("SymRatio",):
-            sym = True
-            break
-    if not sym:
+    if plain:
         out = []
         for p in parts:
             if isinstance(p, tuple):
@@ -517,6 +515,7 @@ def sx_fstr(*parts):
             else:
                 out.append(p)
         return "".join(out)
+    # objects are rendered through the str shim, so that a __str__ returning SymStr works
     return fstr_build(parts)
 
 
